@@ -64,9 +64,26 @@ class P3(_Logged):              # not an event handler
     priority = -3
 
 
-TYPES = [P0, P1, P2, P3]
-DEFAULT = {P0: 0, P1: 0, P2: 5, P3: -3}
-HANDLER = {P0: True, P1: True, P2: True, P3: False}
+@desper.event_handler('on_add')
+class P4(_Logged):              # an event handler that does not listen to on_remove
+    priority = 2
+
+    def on_add(self):
+        self.log.append(('on_add', self, self.world))
+
+
+@desper.event_handler('on_remove')
+class P5(_Logged):              # an event handler that does not listen to on_add
+    priority = 1
+
+    def on_remove(self):
+        self.log.append(('on_remove', self, self.world))
+
+
+TYPES = [P0, P1, P2, P3, P4, P5]
+DEFAULT = {P0: 0, P1: 0, P2: 5, P3: -3, P4: 2, P5: 1}
+EVENTS = {P0: ('on_add', 'on_remove'), P1: ('on_add', 'on_remove'), P2: ('on_add', 'on_remove'), P3: (),
+          P4: ('on_add',), P5: ('on_remove',)}
 
 
 class Model:
@@ -76,6 +93,8 @@ class Model:
         self.stamp = {}     # id(instance) -> add time
         self.gone = []      # instances replaced or removed
         self.clock = 0
+        self.enabled = True     # world.dispatch_enabled
+        self.pending = []       # one list of (event, instance) per operation performed while disabled
         self.explicit = set()   # ids of instances added with an explicit priority
 
     def add(self, p, prio, explicit):
@@ -162,16 +181,61 @@ def expect_events(sp, log, expected, when):
     del log[:]
 
 
-def h_procs(sp, L=3, n_types=4, mid_process=True, build=0, readd=True):
-    types = TYPES[:n_types]
+def deliver(sp, m, log, expected, when):
+    """Lifecycle callbacks of one operation: now when dispatching is enabled, postponed otherwise."""
+    if m.enabled:
+        expect_events(sp, log, expected, when)
+        return
+    sp.check(not log, 'callback-while-disabled',
+             '%s: dispatching is disabled, yet callbacks ran: %r' % (when, [(x[0], x[1]) for x in log]))
+    if expected:
+        m.pending.append(expected)
+
+
+def set_dispatching(sp, w, m, log, value, when):
+    sp.note('dispatch_enabled = %r' % value)
+    del log[:]
+    try:
+        w.dispatch_enabled = value
+    except Exception as ex:     # noqa
+        sp.fail('enable-raises', '%s: dispatch_enabled = %r raised %r' % (when, value, ex))
+    m.enabled = value
+    got = [(x[0], x[1]) for x in log]
+    if not value:
+        sp.check(not got, 'callback-while-disabled', '%s: disabling delivered %r' % (when, got))
+        return
+    # postponed callbacks arrive now, operation by operation (callbacks of one operation in any order)
+    flat = [e for group in m.pending for e in group]
+    ok = len(got) == len(flat)
+    pos = 0
+    for group in m.pending:
+        chunk = got[pos:pos + len(group)]
+        pos += len(group)
+        ok = ok and len(chunk) == len(group) and all(
+            sum(1 for g in chunk if g[0] == e[0] and g[1] is e[1]) == 1 for e in group)
+    sp.check(ok, 'postponed-callbacks',
+             '%s: enabling dispatching delivered %r, postponed (in operation order) were %r' % (when, got, flat))
+    if len(m.pending) >= 2:
+        sp.cover('flush-several-operations')
+    if m.pending:
+        sp.cover('flush')
+    del m.pending[:]
+    del log[:]
+
+
+def h_procs(sp, L=3, n_types=4, mid_process=True, build=0, readd=True, pick=None, toggle=False, explicit_ok=True):
+    types = [TYPES[i] for i in pick] if pick else TYPES[:n_types]
     w = World()
     m = Model()
     log = []
     serial = 0
+    if toggle and sp.flag('start-disabled'):
+        set_dispatching(sp, w, m, log, False, 'start')
+        sp.cover('start-disabled')
     for step in range(build + L):
         when = 'step %d' % step
         # the first `build` steps add one processor each of types[0], types[1], ... (any priorities)
-        ops = [0, 1] + ([2] if mid_process else []) + ([3] if readd else [])
+        ops = [0, 1] + ([2] if mid_process else []) + ([3] if readd else []) + ([4] if toggle else [])
         op = 0 if step < build else sp.pick(ops, 'op%d' % step)
         try:
             if op == 0:
@@ -183,11 +247,11 @@ def h_procs(sp, L=3, n_types=4, mid_process=True, build=0, readd=True):
                 if old is not None:
                     m.drop(T)
                     sp.cover('replace')
-                    if HANDLER[T]:
+                    if 'on_remove' in EVENTS[T]:
                         expected.append(('on_remove', old))
-                if HANDLER[T]:
+                if 'on_add' in EVENTS[T]:
                     expected.append(('on_add', p))
-                explicit = bool(sp.flag('explicit%d' % step))
+                explicit = bool(explicit_ok and sp.flag('explicit%d' % step))
                 if explicit:
                     prio = sp.int('prio%d' % step)
                     sp.note('add_processor(%r, priority=%s)' % (p, prio))
@@ -203,11 +267,15 @@ def h_procs(sp, L=3, n_types=4, mid_process=True, build=0, readd=True):
                         sp.cover('tie-of-defaults')
                     w.add_processor(p)
                 m.add(p, prio, explicit)
+                if not m.enabled:
+                    sp.cover('replace-while-disabled' if old is not None else 'add-while-disabled')
+                    if EVENTS[T] and 'on_add' not in EVENTS[T]:
+                        sp.cover('add-handler-without-on_add-while-disabled')
                 if len(m.reg) >= 3:
                     sp.cover('three-or-more')
                 if len(m.reg) >= 4:
                     sp.cover('four')
-                expect_events(sp, log, expected, when)
+                deliver(sp, m, log, expected, when)
             elif op == 1:
                 T = sp.pick(types, 'type%d' % step)
                 sp.note('remove_processor(%s)' % T.__name__)
@@ -218,15 +286,25 @@ def h_procs(sp, L=3, n_types=4, mid_process=True, build=0, readd=True):
                 if victim is not None:
                     old = m.drop(victim)
                     sp.cover('remove')
+                    if 'on_remove' not in EVENTS[victim] and EVENTS[victim]:
+                        sp.cover('remove-handler-without-on_remove' + ('' if m.enabled else '-while-disabled'))
+                    elif not m.enabled:
+                        sp.cover('remove-while-disabled')
                     if victim is not T:
                         sp.cover('remove-subtype')
-                    if HANDLER[victim]:
+                    if 'on_remove' in EVENTS[victim]:
                         expected.append(('on_remove', old))
                 else:
                     sp.cover('remove-absent')
-                expect_events(sp, log, expected, when)
+                deliver(sp, m, log, expected, when)
+            elif op == 4:
+                if m.enabled:
+                    sp.cover('disable-mid-history')
+                set_dispatching(sp, w, m, log, not m.enabled, when)
             elif op == 2:
                 sp.cover('process-mid-history')
+                if not m.enabled and len(m.reg) >= 2:
+                    sp.cover('process-while-disabled')
                 run_process(sp, w, m, log, when)
             else:
                 # re-add the instance that is currently registered (the same object)
@@ -256,7 +334,7 @@ def h_procs(sp, L=3, n_types=4, mid_process=True, build=0, readd=True):
                 got = [(x[0], x[1]) for x in log]
                 both = (len(got) == 2 and all(g[1] is p for g in got)
                         and sorted(g[0] for g in got) == ['on_add', 'on_remove'])
-                sp.check((not got) or (HANDLER[T] and both), 'lifecycle-callbacks',
+                sp.check((not got) or (len(EVENTS[T]) == 2 and both), 'lifecycle-callbacks',
                          '%s: re-adding %r delivered %r, expected on_remove+on_add for it or nothing' % (
                              when, p, got))
                 del log[:]
@@ -266,6 +344,14 @@ def h_procs(sp, L=3, n_types=4, mid_process=True, build=0, readd=True):
             observe(sp, w, m, types, when)
         except Exception as ex:     # noqa
             sp.fail('op-raises', '%s: an observer raised %r' % (when, ex))
+    if not m.enabled:
+        if len(m.reg) >= 2:
+            sp.cover('process-while-disabled')
+        try:
+            run_process(sp, w, m, log, 'last frame while disabled')
+        except Exception as ex:     # noqa
+            sp.fail('op-raises', 'process(dt) while disabled raised %r' % (ex,))
+        set_dispatching(sp, w, m, log, True, 'end')
     try:
         run_process(sp, w, m, log, 'final frame')
         if m.gone:
@@ -277,10 +363,16 @@ def h_procs(sp, L=3, n_types=4, mid_process=True, build=0, readd=True):
 
 _TAGS = ['replace', 'remove', 'remove-subtype', 'explicit', 'default', 'explicit-vs-explicit', 'tie-of-defaults',
          'three-or-more', 'process-several', 'frame-after-replace-or-remove']
+_DISABLED = ['start-disabled', 'disable-mid-history', 'add-while-disabled', 'replace-while-disabled',
+             'remove-while-disabled', 'remove-handler-without-on_remove', 'add-handler-without-on_add-while-disabled',
+             'remove-handler-without-on_remove-while-disabled', 'flush', 'flush-several-operations',
+             'process-while-disabled']
 _READD = ['readd-explicit', 'readd-omitted', 'readd-among-several']
 
 HARNESSES = {
     'procs': dict(fn=h_procs, nontrivial=_TAGS + _READD, required=_TAGS + _READD),
+    # dispatching disabled at a symbolic point (or from the start), enabled again later / at the end
+    'disabled': dict(fn=h_procs, nontrivial=_DISABLED, required=_DISABLED),
     'noreadd': dict(fn=h_procs, nontrivial=_TAGS, required=_TAGS),
     # same function started from a built world (first `build` steps are forced adds): longer lists
     'built': dict(fn=h_procs, nontrivial=_TAGS + _READD + ['four'],
@@ -291,10 +383,13 @@ TIERS = {
     'quick': [
         ('procs', dict(L=3, n_types=4)),
         ('built', dict(L=1, n_types=4, build=3)),
+        ('disabled', dict(L=4, pick=[0, 4, 5], toggle=True, readd=False, explicit_ok=False)),
     ],
     'thorough': [
         ('procs', dict(L=4, n_types=4)),
         ('built', dict(L=2, n_types=4, build=3)),
+        ('disabled', dict(L=5, pick=[0, 4, 5], toggle=True, readd=False, explicit_ok=False)),
+        ('disabled', dict(L=3, pick=[0, 1, 4, 5], toggle=True, readd=False)),
         ('noreadd', dict(L=5, n_types=3, mid_process=False, readd=False)),
     ],
 }
@@ -313,9 +408,14 @@ RULE = ('one evaluation = one feasible path = one operation sequence together wi
         'explicit symbolic priority, had a tie of defaults, three or more processors, or processed several')
 BOUNDS = {
     'quick': 'all sequences of 3 operations (add fresh / remove / process / re-add registered instance), and 1 operation after a built world of P0, P1, P2 with any priorities, + a final process(dt); 4 processor classes P0, P1(P0), P2, P3 with '
-             'class defaults 0, 0, 5, -3 (P3 is not an event handler); priorities: any integer or omitted',
+             'class defaults 0, 0, 5, -3 (P3 is not an event handler); priorities: any integer or omitted; '
+             'dispatching disabled: all sequences of 4 operations (add / remove / process / toggle dispatch_enabled) '
+             'over P0, P4 (on_add only), P5 (on_remove only) with default priorities, started enabled or disabled, '
+             'enabled again at the end',
     'thorough': 'all sequences of 4 operations over the 4 classes, 2 operations after the built world, and all '
-                'sequences of 5 add-fresh/remove operations over P0, P1(P0), P2; each followed by a final process(dt); priorities: any integer or omitted',
+                'sequences of 5 add-fresh/remove operations over P0, P1(P0), P2; each followed by a final process(dt); priorities: any integer or omitted; '
+                'dispatching disabled: 5 operations over P0, P4, P5 (default priorities) and 3 operations over P0, '
+                'P1(P0), P4, P5 with symbolic priorities',
 }
 ASSUMPTIONS = [
     'add_processor gets a fresh instance, or (re-add operation) the very instance currently registered for its '
@@ -327,16 +427,24 @@ ASSUMPTIONS = [
     'reads is accepted and the order must agree with it; callbacks: on_remove + on_add for that object in any '
     'order, or none at all, are both accepted',
     '"order they were added" refers to the add_processor call that registered the instance currently listed',
-    'event dispatching stays enabled; processors do not add/remove processors or raise inside process()',
+    'processors do not add/remove processors or raise inside process()',
+    'harness "disabled": world.dispatch_enabled is switched off at the start and/or toggled at symbolic points of '
+    'the history and switched on again at the end.  While it is off no on_add/on_remove of a processor may run '
+    '(they are postponed, the mechanism of C02/C04); the enabling assignment must not raise and must deliver '
+    'exactly the postponed callbacks, operation by operation (callbacks of one operation in any order), also to '
+    'processors that were removed meanwhile; handlers that do not map on_add / on_remove get no such callback; '
+    'process(dt) while disabled still calls every processor once, in order',
     'remove_processor(T) removes the exact-T instance, else the instance of the only registered subtype '
     '(choice among several subtypes is C06); its return value is not checked here',
     'processor.world after removal is not specified by the statement: not checked',
     '"with that dt" is checked by object identity; dt is an instance of a float subclass',
     'the relative order of the replaced instance\'s on_remove and the new instance\'s on_add is not specified',
-    'on_add/on_remove are checked for handler processors only (P3 has no __events__ and gets no callbacks)',
+    'on_add/on_remove are checked for handler processors only (P3 has no __events__; P4 maps on_add only, P5 '
+    'on_remove only)',
 ]
 OUTSIDE = ['add_processor/remove_processor from inside a running process()', 'histories longer than the bound',
+           'World.clear() or re-adding the registered instance while dispatching is disabled',
            'priority objects that are not mathematical integers (bool, int subclasses with odd comparisons)',
-           'dispatching disabled while processors are added or removed (C02)']
+           'events other than on_add/on_remove queued while dispatching is disabled (C04)']
 
 TECHNIQUE = 'bounded symbolic execution with unbounded symbolic integer priorities: every comparison in desper/bisect.py is a z3 LIA decision; order stated as validity checks'
